@@ -910,7 +910,9 @@ let model_posts (pre : istate) (label : sx) (post : istate option) dl : (unit ->
         List.map (fun k () ->
         (* the permuted transaction record is only a device to pick the order: the result is compared on the
            canonical form, which sorts the targets of a change *)
-        (p2_step w1 (LRec (c, nat_of_int k, o)), Printf.sprintf "k=%d/%d" k (List.length effs))) ks) choices) starts
+        let kinds = String.concat "" (List.filter_map (function EPutValues _ -> Some "U" | EPutAValues _ -> Some "S" | ECreateCfg _ -> Some "C" | _ -> None)
+                                        (List.filteri (fun j _ -> j < k) effs)) in
+        (p2_step w1 (LRec (c, nat_of_int k, o)), Printf.sprintf "k=%d/%d kinds=%s" k (List.length effs) (if kinds = "" then "-" else kinds))) ks) choices) starts
   | None ->
     (match lst label with
      | [ A "connup"; c; t ] -> [ fun () -> (p2_step w0 (LConnUp (num c, num t)), "") ]
@@ -969,10 +971,11 @@ let check_result id (label : sx) (pre : istate) dl (res : string) =
                      (String.concat " " (List.map (function A a -> a | L _ -> "(..)") (lst label))) (String.concat "|" rs) res)
   | _ -> ()
 
-let validate id (label : sx) (pre : istate) (post : istate) dl =
+let validate ?(kinds = "") id (label : sx) (pre : istate) (post : istate) dl =
   let posts = model_posts pre label (Some post) dl in
   let ci = canon post.w in
   let first = ref None and last = ref None in
+  let matched = ref [] in
   let rec search = function
     | [] -> None
     | th :: rest ->
@@ -980,9 +983,24 @@ let validate id (label : sx) (pre : istate) (post : istate) dl =
       let d = diff_canon (canon w) ci in
       if !first = None then first := Some (d, info);
       last := Some (d, info);
-      if d = None then Some w else search rest in
+      if d = None then begin
+        matched := info :: !matched;
+        (* among the alternatives that explain the state, one must also make the same kind of configuration-store writes *)
+        let kinds_ok = kinds = "" || (match lst label with [ _; _; _; _; A "all"; _ ] | [ _; _; _; A "all"; _ ] -> false | _ -> true)
+                       || (let suffix = "kinds=" ^ kinds in
+                           let li = String.length info and ls = String.length suffix in
+                           li >= ls && String.sub info (li - ls) ls = suffix) in
+        if kinds_ok then Some w else (match search rest with Some w' -> Some w' | None -> Some w)
+      end else search rest in
   match search posts with
   | Some w ->
+    (if kinds <> "" && (match lst label with [ _; _; _; _; A "all"; _ ] | [ _; _; _; A "all"; _ ] -> true | _ -> false) then
+       let suffix = "kinds=" ^ kinds in
+       let ends info = let li = String.length info and ls = String.length suffix in li >= ls && String.sub info (li - ls) ls = suffix in
+       if not (List.exists ends !matched) then
+         mismatch id (Printf.sprintf "%s step %s: the state is explained, but the configuration store was written through other calls than the model's effects say (U = Update: values and entry, S = UpdateStatus: applied values and entry, C = Create): implementation %s, model %s"
+                        (props_of_step label pre false) (String.concat " " (List.map (function A a -> a | L _ -> "(..)") (lst label))) kinds
+                        (String.concat " | " (List.sort_uniq compare !matched))));
     (* device requests: the model's new log entries against the observed ones *)
     let ml = List.sort compare (List.map (fun (DevSet (t, c, term, _, r, a)) -> s_req (t, c, term, r, a)) (devlog w)) in
     let il = List.sort compare (List.map s_req dl) in
@@ -1054,10 +1072,10 @@ let () =
       (match h.prev with
        | Some pre ->
          seen_distinct (label_name label ^ "|" ^ String.concat ";" (List.map snd (canon pre.w)));
-         validate id label pre post dl;
+         validate ~kinds:(match rest with _ :: _ :: k :: _ -> k | _ -> "") id label pre post dl;
          check_result id label pre dl res;
          monitors id label pre post dl;
-         (match rest with _ :: doc :: _ -> c05_document id label pre doc | _ -> ());
+         (match rest with _ :: doc :: _ when doc <> "-" -> c05_document id label pre doc | _ -> ());
          List.iter (fun (_, c) ->
            if s_cm (overlay c.c_inline c.c_values) <> s_cm c.c_values then stat "loaded_values_differ_from_committed_map";
            if s_cm (overlay c.c_ainline c.c_avalues) <> s_cm c.c_avalues then stat "loaded_applied_values_differ_from_applied_map") (cfgs_of post.w)
@@ -1068,7 +1086,7 @@ let () =
       let label = parse_sx label in
       stat ("noop." ^ label_name label);
       (match h.prev, rest with Some pre, r :: _ -> check_result id label pre [] r | _ -> ());
-      (match h.prev, rest with Some pre, _ :: doc :: _ -> c05_document id label pre doc | _ -> ());
+      (match h.prev, rest with Some pre, _ :: doc :: _ when doc <> "-" -> c05_document id label pre doc | _ -> ());
       (match rest with r :: _ -> c09_note id label r | [] -> ());
       (match h.prev with
        | Some pre ->
